@@ -82,6 +82,8 @@ KEY_FROZEN = {"call_site": "PDE._prepare_cache", "backend": "numba",
 # set only the ghost cells of the normal component
 KEY_UNINIT = {"call_site": "NumbaBackend.make_operator", "conditions": "normal_*",
               "symptom": "ghost cells that no condition sets are read uninitialised (np.empty)"}
+KEY_UNINIT_FIELD = {"call_site": "DataFieldBase.apply_operator", "conditions": "normal_*",
+                    "symptom": "ghost cells that no condition sets are read uninitialised (np.empty)"}
 KEY_CRASH = {"call_site": "history", "symptom": "crash or setup error on one side only"}
 
 
@@ -813,6 +815,28 @@ def heap_dependence(op, grid, info, seed, poison=None):
     return {"first": res[0], "second": res[1], "cells": differ}
 
 
+def heap_dependence_field(grid, info, req, seed):
+    """the same clause for `field.apply_operator(operator, bc)`: the field is created from the same data after two
+    different allocation histories (the field allocates its padded array itself, the conditions set ghost cells in it)"""
+    import pde
+    cls = [pde.ScalarField, pde.VectorField, pde.Tensor2Field][info.rank_in]
+    shape = (grid.dim,) * info.rank_in + grid.shape
+    shape_full = (grid.dim,) * info.rank_in + grid._shape_full
+    d = rnd_data(seed, shape)
+    if type(grid).__name__ == "SphericalSymGrid" and info.rank_in == 1:
+        d[1:] = 0
+    res = []
+    for fill in (1e30, -7.0):
+        poison_heap(shape_full, d.dtype, fill)
+        f = cls(grid, d)
+        res.append(np.array(f.apply_operator(req["op"], bc=dec_bc(req["bc"]), **{k: dec(v) for k, v in req["kwargs"]}).data))
+    if arr_close(res[0], res[1]):
+        return None
+    with np.errstate(all="ignore"):
+        differ = ~((res[0] == res[1]) | (np.isnan(res[0]) & np.isnan(res[1])))
+    return {"first": res[0], "second": res[1], "cells": differ}
+
+
 def real_req_pair(case):
     from harness.common import pygraph as G
     from pde.backends.numba.backend import NumbaBackend
@@ -892,6 +916,16 @@ def real_req_pair(case):
             out["heap_dep"] = {"first": lst(hd["first"]), "second": lst(hd["second"]),
                                "cells_differing": np.argwhere(hd["cells"]).tolist()[:12], "n_cells_differing": int(hd["cells"].sum()),
                                "only_in_cells_no_condition_determines": inside}
+        try:
+            hf = heap_dependence_field(gb, ib, case["b"], seed)
+        except Exception as e:
+            out["field_error"] = exc_class(e)
+            hf = None
+        if hf is not None:
+            inside = bool(mb is not True and not np.any(hf["cells"] & np.broadcast_to(mb, hf["cells"].shape)))
+            out["heap_dep_field"] = {"first": lst(hf["first"]), "second": lst(hf["second"]),
+                                     "cells_differing": np.argwhere(hf["cells"]).tolist()[:12], "n_cells_differing": int(hf["cells"].sum()),
+                                     "only_in_cells_no_condition_determines": inside}
     except Exception as e:
         out["error"] = f"apply:{exc_class(e)}:{e}"
     return out
@@ -911,6 +945,12 @@ def real_obj_pair(case):
         out["sa"], out["sb"] = G.grid_spec(a), G.grid_spec(b)
         out["sem_eq"] = bool(type(a) is type(b) and a.shape == b.shape and tuple(map(tuple, a.axes_bounds)) == tuple(map(tuple, b.axes_bounds))
                              and list(a.periodic) == list(b.periodic))
+        # `GridBase.__eq__` validates caches too (`state.attributes == cache["state_attributes"]` in `PDE._prepare_cache`):
+        # grids that compare equal must be the same geometry (a UnitGrid IS the CartesianGrid with the same bounds)
+        geo = lambda g: "CartesianGrid" if type(g).__name__ == "UnitGrid" else type(g).__name__
+        out["grid_eq"] = bool(a == b)
+        out["geom_eq"] = bool(geo(a) == geo(b) and a.shape == b.shape and tuple(map(tuple, a.axes_bounds)) == tuple(map(tuple, b.axes_bounds))
+                              and list(a.periodic) == list(b.periodic))
         return out
     objs = []
     for tag in ("a", "b"):
@@ -1325,6 +1365,11 @@ def judge_pairs(ctx, pending, answers):
         if "shared" in res and res["shared"] != res["hash_eq"]:
             ctx.disagree("wrapper", cj, {"key_equal": res["hash_eq"]}, {"cached_objects_identical": res["shared"]},
                          "the cached method shares/does not share although the wrapper key says otherwise")
+        if k == "gridobj" and ok_built:
+            ctx.hist("gridobj:eq", f"==:{res.get('grid_eq')} same-geometry:{res.get('geom_eq')}")
+            if res.get("grid_eq") and not res.get("geom_eq"):
+                ctx.disagree("grid-eq-faithful", cj, {"same_geometry": False}, {"a == b": True},
+                             "grids of different geometry compare equal (grid equality validates PDE._cache)")
         if k in ("bcobj", "gridobj") and ok_built and res["hash_eq"] and not res["sem_eq"]:
             # not by itself a violation (no cached method is keyed by a single condition or grid), but the key is
             # not faithful on these objects: reported as a broken tie unless the model agrees
@@ -1367,11 +1412,60 @@ def judge_pairs(ctx, pending, answers):
                     dict(call_site=call_site, symptom="result depends on the contents of freed memory")
                 ctx.monitor_fail(leg, dict(cj, a=cj["b"], variants=["heap"]), dict(hd, symptom="heap_dependence"),
                                  {"same_result_after_any_allocation_history": True}, f"{k}: {key['symptom']}", key=key)
+            # ... nor does `field.apply_operator` of a field created from the same data
+            ctx.monitor_evals += 1
+            if res.get("field_error"):
+                ctx.hist("req:field-apply-error", res["field_error"])
+            hf = res.get("heap_dep_field")
+            if hf:
+                key = KEY_UNINIT_FIELD if hf["only_in_cells_no_condition_determines"] and has_normal(case["b"]["bc"]) else \
+                    dict(call_site="DataFieldBase.apply_operator", symptom="result depends on the contents of freed memory")
+                ctx.monitor_fail(leg, dict(cj, a=cj["b"], variants=["heap-field"]), dict(hf, symptom="heap_dependence_field"),
+                                 {"same_result_after_any_allocation_history": True}, f"{k}: field.apply_operator: {key['symptom']}", key=key)
 
 
 # ==========================================================================================
 # HISTORIES
-QUERY_OPS = {"make_operator", "ghost_setter", "interpolate", "field_op", "rate", "rhs", "solve", "diffusion", "nobc"}
+QUERY_OPS = {"make_operator", "ghost_setter", "interpolate", "field_op", "rate", "rhs", "solve", "diffusion", "nobc", "evaluate"}
+
+
+def uf_f(c):
+    return -0.5 * c
+
+
+def uf_g(c):
+    return c * c + 1.0
+
+
+USER_FUNCS = {"f": uf_f, "g": uf_g}
+
+
+def snapshot(obj):
+    """what a caller can see of an argument object (dict of functions / numbers / fields / nested dicts)"""
+    if isinstance(obj, dict):
+        return {str(k): snapshot(v) for k, v in obj.items()}
+    if isinstance(obj, (list, tuple)):
+        return [snapshot(v) for v in obj]
+    if callable(obj):
+        return "callable:" + getattr(obj, "__qualname__", type(obj).__name__)
+    if isinstance(obj, np.ndarray):
+        return "ndarray:" + repr(obj.tolist())
+    if hasattr(obj, "grid") and hasattr(obj, "data"):
+        return "field:" + type(obj).__name__
+    return type(obj).__name__ + ":" + repr(obj)
+
+
+def mutated_args(env):
+    """names of the caller's argument objects that py-pde changed.  One change is documented and tolerated:
+    `set_default_bc` adds the default `'*': 'auto_periodic_neumann'` to a boundary dictionary given per axis."""
+    out = []
+    for name, (what, snap) in env.get("shared_snap", {}).items():
+        now = snapshot(env["shared"][name])
+        if what == "bc" and "*" not in snap and now.get("*") == "str:'auto_periodic_neumann'":
+            now = {k: v for k, v in now.items() if k != "*"}
+        if now != snap:
+            out.append({"object": name, "kind": what, "before": snap, "after": now})
+    return out
 
 
 def _field(env, name):
@@ -1400,11 +1494,29 @@ def exec_op(env, op):
         f = env["fields"][op["field"]]
         f._data_full = rnd_data(op["seed"], f._data_full.shape)
         return None
+    if k == "shared":
+        # an argument OBJECT of the caller that several later requests are given (the same dict object every time)
+        if op["what"] == "user_funcs":
+            obj = {n: USER_FUNCS[n] for n in op["value"]}
+        elif op["what"] == "consts":
+            obj = {n: (env["fields"][v[1]] if v[0] == "field" else dec(v)) for n, v in op["value"].items()}
+        elif op["what"] == "bc":
+            obj = dec_bc(op["value"])
+        else:
+            raise ValueError(op["what"])
+        env.setdefault("shared", {})[op["name"]] = obj
+        env.setdefault("shared_snap", {})[op["name"]] = (op["what"], snapshot(obj))
+        return None
     if k == "pde":
         consts = {}
         for name, v in op.get("consts", {}).items():
             consts[name] = env["fields"][v[1]] if v[0] == "field" else dec(v)
-        env["pdes"][op["name"]] = pde.PDE(op["rhs"], bc=dec_bc(op["bc"]) if isinstance(op["bc"], dict) else op["bc"], consts=consts)
+        if op.get("consts_shared"):
+            consts = env["shared"][op["consts_shared"]]
+        uf = op.get("user_funcs")
+        user_funcs = env["shared"][uf] if isinstance(uf, str) else {n: USER_FUNCS[n] for n in uf} if uf else None
+        bc = env["shared"][op["bc_shared"]] if op.get("bc_shared") else dec_bc(op["bc"]) if isinstance(op["bc"], dict) else op["bc"]
+        env["pdes"][op["name"]] = pde.PDE(op["rhs"], bc=bc, consts=consts, user_funcs=user_funcs)
         return None
     # ---- queries ----
     if k == "make_operator":
@@ -1477,6 +1589,14 @@ def exec_op(env, op):
         st = _field(env, op["state"])
         res = eq.solve(st, t_range=op["t_range"], dt=op["dt"], tracker=None, backend=op["backend"], solver=op.get("solver", "euler"))
         return lst(res.data)
+    if k == "evaluate":
+        from pde.tools.expressions import evaluate
+        uf = op.get("user_funcs")
+        user_funcs = env["shared"][uf] if isinstance(uf, str) else {n: USER_FUNCS[n] for n in uf} if uf else None
+        bc = env["shared"][op["bc_shared"]] if op.get("bc_shared") else dec_bc(op["bc"]) if isinstance(op["bc"], dict) else op["bc"]
+        consts = env["shared"][op["consts_shared"]] if op.get("consts_shared") else None
+        return lst(evaluate(op["expr"], {"c": env["fields"][op["state"]]}, bc=bc, user_funcs=user_funcs, consts=consts,
+                            backend=op.get("backend", "numpy")).data)
     if k == "diffusion":
         st = _field(env, op["state"])
         eq = pde.DiffusionPDE(diffusivity=op["diffusivity"], bc=dec_bc(op["bc"]))
@@ -1509,6 +1629,10 @@ def hist_exec(history, fresh):
                 return "SETUP-EXC:" + exc_class(e) + ":" + str(e)[:80]
         if i == last:
             result = r
+    mut = mutated_args(env)
+    if mut:
+        # py-pde wrote into an argument object of the caller: reported together with the result (never equal to a plain result)
+        return {"ARG-MUTATED": mut, "result": result}
     return result
 
 
@@ -1725,7 +1849,7 @@ def gen_history(rng, hist, jit=False):
         ops.append({"op": "field", "name": f"f{i}", "grid": gi, "rank": 0, "seed": seed()})
         fields.append((f"f{i}", gi))
     theme = rng.choice(["operator", "operator", "ghost", "interp", "interp", "pde", "pde", "pde_const", "solve", "field_op", "nobc", "diffusion",
-                        "pde_coll"])
+                        "pde_coll", "pde_shared", "pde_shared", "pde_grids", "pde_grids"])
     if theme in ("interp", "pde", "pde_const") and not jit and rng.random() < 0.15:
         ops[0]["complex"] = True  # a complex-valued state/field (the dtype is part of `state.attributes` and of the operator keys)
     hist("history-theme", theme + ("/jit" if jit else ""))
@@ -1888,6 +2012,99 @@ def gen_history(rng, hist, jit=False):
             ops.append({"op": "solve", "pde": pname, "state": st, "t_range": 0.02, "dt": 0.01, "backend": be2, "solver": "euler"})
         else:
             ops.append({"op": rng.choice(["rate", "rhs"]), "pde": pname, "state": st, "backend": be2})
+    elif theme == "pde_shared":
+        # several requests are given the SAME argument objects (a dict of helper functions, a dict of constants, a
+        # boundary dict), as a caller scanning boundary conditions or parameters does
+        f, gi = fields[0]
+        gd = grids[gi]
+        bc = gen_bc(rng, gd, 0)
+        uses = rng.choice([["u"], ["u"], ["u", "k"], ["b"], ["u", "b"], ["k"]])
+        rhs = rng.choice(["laplace(c) + f(c)", "f(laplace(c))", "gradient_squared(c) + g(c)", "laplace(c) - g(c) + f(c)"]) if "u" in uses \
+            else rng.choice(["laplace(c) - c", "gradient_squared(c) + laplace(c)"])
+        if "k" in uses:
+            rhs = "k * (" + rhs + ")"
+        common = {}
+        if "u" in uses:
+            ops.append({"op": "shared", "name": "u0", "what": "user_funcs", "value": ["f", "g"] if rng.random() < 0.5 else [n for n in ("f", "g") if n + "(" in rhs]})
+            common["user_funcs"] = "u0"
+        if "k" in uses:
+            if rng.random() < 0.5:
+                ops.append({"op": "field", "name": "fk", "grid": gi, "rank": 0, "seed": seed()})
+                kval = ["field", "fk"]
+            else:
+                kval = rng.choice([["f", 0.5], ["i", -1], ["f", 2.0]])
+            ops.append({"op": "shared", "name": "k0", "what": "consts", "value": {"k": kval}})
+            common["consts_shared"] = "k0"
+        if "b" in uses:
+            ops.append({"op": "shared", "name": "b0", "what": "bc", "value": bc})
+            common["bc_shared"] = "b0"
+        be = lambda: rng.choice(["numpy", "numba", "numba"])
+
+        def query(pname):
+            r = rng.random()
+            if r < 0.15 and not jit:
+                return {"op": "solve", "pde": pname, "state": f, "t_range": 0.02, "dt": 0.01, "backend": be(), "solver": "euler"}
+            return {"op": "rate" if r < 0.45 else "rhs", "pde": pname, "state": f, "backend": be()}
+        ops.append(dict({"op": "pde", "name": "p0", "rhs": {"c": rhs}, "bc": bc, "consts": {}}, **common))
+        ops.append(query("p0"))
+        for _ in range(rng.randint(0, 2)):
+            ops.append(filler() if rng.random() < 0.6 else {"op": "write", "field": f, "seed": seed()})
+        # the second request: another condition / another expression / a plain operator - with the same objects
+        r = rng.random()
+        if r < 0.6 or "b" in uses:
+            bc2, v = (bc, "same") if "b" in uses else vary_bc(rng, gd, 0, bc)
+            hist("history-variant", "shared:" + v)
+            rhs2 = rhs if "b" not in uses or rng.random() < 0.4 else rhs.replace("laplace(c)", "laplace(c) + c")
+            ops.append(dict({"op": "pde", "name": "p1", "rhs": {"c": rhs2}, "bc": bc2, "consts": {}}, **common))
+            ops.append(query("p1"))
+        elif "u" in uses:
+            bc2, v = vary_bc(rng, gd, 0, bc)
+            hist("history-variant", "shared-evaluate:" + v)
+            ex = rhs[len("k * ("):-1] if "k" in uses else rhs
+            ops.append({"op": "evaluate", "expr": ex, "state": f, "bc": bc2, "user_funcs": "u0", "backend": rng.choice(["numpy", "numba"])})
+        else:
+            ops.append(dict({"op": "pde", "name": "p1", "rhs": {"c": rhs}, "bc": bc, "consts": {}}, **common))
+            ops.append(query("p1"))
+    elif theme == "pde_grids":
+        # ONE PDE object asked for states on grids that differ only in their class (equal shape, bounds, periodicity):
+        # polar / spherical, 2d Cartesian / cylindrical - in both orders
+        ops = []
+        if rng.random() < 0.55 or jit:
+            n = rng.randint(2, 8)
+            r0 = rng.choice([0.0, 0.0, 0.5, 1.0])
+            R = r0 + rng.choice([0.5, 1.0, 0.25]) * n
+            ga = {"cls": "PolarSymGrid", "shape": [n], "bounds": [[r0, R]], "periodic": [False]}
+            gb = dict(copy.deepcopy(ga), cls="SphericalSymGrid")
+        else:
+            nr, nz = rng.randint(2, 4), rng.randint(2, 4)
+            R, z0 = rng.choice([1.0, 2.0, 0.5]) * nr, rng.choice([0.0, -1.0])
+            pz = rng.random() < 0.4
+            ga = {"cls": "CylindricalSymGrid", "shape": [nr, nz], "bounds": [[0.0, R], [z0, z0 + rng.choice([0.5, 1.0]) * nz]], "periodic": [False, pz]}
+            gb = dict(copy.deepcopy(ga), cls="CartesianGrid")
+        if rng.random() < 0.5:
+            ga, gb = gb, ga
+        grids[0], grids[1] = ga, gb
+        sd = seed()
+        ops.append({"op": "field", "name": "f0", "grid": 0, "rank": 0, "seed": sd})
+        ops.append({"op": "field", "name": "f1", "grid": 1, "rank": 0, "seed": sd})
+        fields = [("f0", 0), ("f1", 1)]
+        bc = rng.choice(["auto_periodic_neumann", "auto_periodic_dirichlet", "auto_periodic_neumann"])
+        if rng.random() < 0.4 and not any(ga["periodic"]):
+            side = {"type": rng.choice(["value", "derivative"]), "value": gen_number(rng)}
+            bc = {k2: copy.deepcopy(side) for ax in axes_of(ga) for k2 in (ax + "-", ax + "+")}
+        rhs = rng.choice([{"c": "laplace(c)"}, {"c": "laplace(c) - c"}, {"c": "gradient_squared(c) + laplace(c)"}, {"c": "divergence(gradient(c))"}])
+        ops.append({"op": "pde", "name": "p0", "rhs": rhs, "bc": bc, "consts": {}})
+        be = lambda: rng.choice(["numpy", "numba"])
+
+        def query(st):
+            r = rng.random()
+            if r < 0.2 and not jit:
+                return {"op": "solve", "pde": "p0", "state": st, "t_range": 0.002, "dt": 0.001, "backend": be(), "solver": "euler"}
+            return {"op": "rate" if r < 0.6 else "rhs", "pde": "p0", "state": st, "backend": be()}
+        ops.append(query("f0"))
+        for _ in range(rng.randint(0, 1)):
+            ops.append(filler())
+        ops.append(query("f1"))
     elif theme == "field_op":
         f, gi = fields[0]
         gd = grids[gi]
@@ -2103,7 +2320,7 @@ def last_touches_cache(h):
     """non-triviality of a history: an earlier operation filled a cache the last call consults"""
     ops = h["ops"]
     last = ops[-1]
-    fam = {"make_operator": "op", "field_op": "op", "rate": "op", "rhs": "op", "solve": "op", "diffusion": "op", "ghost_setter": "ghost",
+    fam = {"make_operator": "op", "field_op": "op", "rate": "op", "rhs": "op", "solve": "op", "diffusion": "op", "evaluate": "op", "ghost_setter": "ghost",
            "interpolate": "interp", "nobc": "nobc"}
     return any(o["op"] in QUERY_OPS and fam.get(o["op"]) == fam.get(last["op"]) for o in ops[:-1])
 
@@ -2136,6 +2353,8 @@ def history_key(h, res, mode="S"):
     kinds = [o["op"] for o in ops]
     if isinstance(res, dict) and res.get("one_sided"):
         return dict(KEY_CRASH, call_site="history:" + last["op"])
+    if isinstance(res, dict) and any(isinstance(res.get(x), dict) and "ARG-MUTATED" in res[x] for x in ("full", "fresh")):
+        return {"call_site": "history:" + last["op"], "symptom": "an argument object of the caller is mutated"}
     if mode == "J" and frozen_const_pattern(h):
         return KEY_FROZEN
     if last["op"] == "interpolate" and kinds[:-1].count("interpolate") >= 1 and any(k in kinds for k in ("collection", "assign_full")):
@@ -2266,6 +2485,28 @@ def fixed_histories():
         {"op": "collection", "name": "c0", "fields": ["f1"], "copy": False},
         {"op": "write", "field": "f1", "seed": 3},
         {"op": "rate", "pde": "p0", "state": "f0"}]})
+    # shared argument objects: two PDEs that differ in the kind of condition are given the same dict of helper functions
+    for be1, q2 in (("numba", {"op": "rhs", "pde": "p1", "state": "f0", "backend": "numba"}), ("numba", {"op": "rate", "pde": "p1", "state": "f0"}),
+                    ("numpy", {"op": "rhs", "pde": "p1", "state": "f0", "backend": "numba"})):
+        out.append({"grids": [g8, g8], "ops": [
+            {"op": "field", "name": "f0", "grid": 0, "rank": 0, "seed": 1},
+            {"op": "shared", "name": "u0", "what": "user_funcs", "value": ["f"]},
+            {"op": "pde", "name": "p0", "rhs": {"c": "laplace(c) + f(c)"}, "bc": v0, "consts": {}, "user_funcs": "u0"},
+            {"op": "rhs", "pde": "p0", "state": "f0", "backend": be1},
+            {"op": "pde", "name": "p1", "rhs": {"c": "laplace(c) + f(c)"}, "bc": d0, "consts": {}, "user_funcs": "u0"},
+            q2]})
+    # one PDE object, states on grids that differ only in their class (both orders; rate and compiled rhs)
+    gp = {"cls": "PolarSymGrid", "shape": [8], "bounds": [[0.0, 4.0]], "periodic": [False]}
+    gs = {"cls": "SphericalSymGrid", "shape": [8], "bounds": [[0.0, 4.0]], "periodic": [False]}
+    gc = {"cls": "CylindricalSymGrid", "shape": [3, 4], "bounds": [[0.0, 3.0], [0.0, 4.0]], "periodic": [False, False]}
+    gk = {"cls": "CartesianGrid", "shape": [3, 4], "bounds": [[0.0, 3.0], [0.0, 4.0]], "periodic": [False, False]}
+    for ga, gb, q in ((gp, gs, "rate"), (gs, gp, "rate"), (gp, gs, "rhs"), (gc, gk, "rate"), (gk, gc, "rhs")):
+        out.append({"grids": [ga, gb], "ops": [
+            {"op": "field", "name": "f0", "grid": 0, "rank": 0, "seed": 1},
+            {"op": "field", "name": "f1", "grid": 1, "rank": 0, "seed": 1},
+            {"op": "pde", "name": "p0", "rhs": {"c": "laplace(c)"}, "bc": "auto_periodic_neumann", "consts": {}},
+            {"op": q, "pde": "p0", "state": "f0", "backend": "numba"},
+            {"op": q, "pde": "p0", "state": "f1", "backend": "numba"}]})
     # D
     gm1 = {"cls": "CartesianGrid", "shape": [4], "bounds": [[-1.0, 1.0]], "periodic": [False]}
     gm2 = {"cls": "CartesianGrid", "shape": [4], "bounds": [[-2.0, 1.0]], "periodic": [False]}
@@ -2590,6 +2831,7 @@ def replay(ctx, rep):
         fails = {"cached_differs": res.get("cached_ok") is False,
                  "shared_different_sem": bool(res.get("shared")) and res.get("sem_eq") is False,
                  "heap_dependence": bool(res.get("heap_dep")),
+                 "heap_dependence_field": bool(res.get("heap_dep_field")),
                  "one_sided_exception": bool(res.get("one_sided"))}
         if "cached_ok" not in res and not res.get("one_sided"):
             print("the recorded pair can no longer be built/applied (" + str(res.get("error")) + "): counted as failing")
